@@ -204,13 +204,15 @@ def rebalance_semicolons(items):
             info = [(x.sep, x.start, x.line_start, x.indent) for x in pres]
 
             def rank(x):
+                # most favourable reading: a stand-alone empty statement
+                # is the first to go, then terminators
                 if x.role == 'for':
                     return 0
                 if x.role == 'empty' and not x.droppable:
                     return 1
                 if x.role in ('term', 'virtual'):
-                    return 3
-                return 2
+                    return 2
+                return 3
             order = sorted(range(len(run)), key=lambda k: (rank(run[k]), k))
             keep = sorted(order[:m])
             for x in run:
